@@ -27,6 +27,9 @@ GEN_ADAPTORS = [
     ('chunks2', '@.chunks(2).map((w: Sequence<int>)->{ w[0] })'), ('group-all-equal', '@.group(sameb).map((w: Sequence<int>)->{ w[0] })'),
     ('distinct', '@.distinct()'), ('with_count', '@.with_count().map((p: (int, int))->{ p::item0 })'), ('repeat', '@.repeat()'), ('repeat3', '@.repeat(3)'),
     ('flatten', '[@, @].flatten()'), ('product', '@.product([1].to_generator()).map((p: (int, int))->{ p::item0 })'),
+    # callbacks that are native functions take nothing from the call budget: only the search budget can bound what they drop
+    ('native-filter-never', '@.map(to_str{int}).filter(is_upper{str}).map(len{str})'), ('native-skip_until-never', '@.map(to_str{int}).skip_until(is_upper{str}).map(len{str})'),
+    ('skip-huge', '@.skip(300000000)'), ('skip-huge-take', '@.skip(300000000).take(2)'),
 ]
 GEN_CONSUMERS = [
     ('take3-to_array', '@.take(3).to_array()'), ('get2', '@.get(2)'), ('nth-never', '@.nth(0, never)'), ('last', '@.last()'), ('len', '@.len()'),
@@ -45,6 +48,10 @@ SEQ_CONSUMERS = [
     ('to_generator-len', '@.to_generator().len()'), ('median', '@.median()'), ('n_largest', '@.n_largest(2)'), ('binary_search', '@.binary_search((x: int)->{ -1 })'),
     ('bisect', '@.bisect(always)'), ('shuffle', '@.shuffle()'), ('sample', '@.sample(2)'), ('permutations', '@.take(12).permutations().len()'),
     ('combinations', '@.take(40).combinations(20).len()'), ('mapping-update', 'mapping<int>().update(@.map((x: int)->{ (x, x) }).to_generator()).len()'),
+    ('native-filter', '@.map(to_str{int}).filter(is_upper{str}).take(1).to_array()'), ('native-skip_until', '@.map(to_str{int}).skip_until(is_upper{str}).take(1).to_array()'),
+    ('native-nth', '@.map(to_str{int}).nth(0, is_upper{str})'), ('native-any', '@.map(to_str{int}).any(is_upper{str})'), ('native-first', '@.map(to_str{int}).first(is_upper{str})'),
+    ('native-count', '@.map(to_str{int}).count(is_upper{str})'), ('skip-huge-get', '@.skip(300000000)[0]'), ('native-gen-count', '@.map(to_str{int}).to_generator().count(is_upper{str})'),
+    ('native-gen-any', '@.map(to_str{int}).to_generator().any(is_upper{str})'), ('native-gen-nth', '@.map(to_str{int}).to_generator().nth(0, is_upper{str})'),
 ]
 B70 = xint(1 << 70)
 NUMERIC = [
@@ -74,7 +81,7 @@ HANG_KNOWN = ['geometric_distribution(1.0).random()', 'negative_binomial_distrib
 def cases(tier):
     out = []
     ad1 = [[a] for a in GEN_ADAPTORS]
-    hot = [a for a in GEN_ADAPTORS if a[0] in ('chain-after', 'chain-before', 'repeat', 'repeat3', 'flatten', 'group-all-equal', 'windows2', 'product', 'filter-never', 'skip_until-never')]
+    hot = [a for a in GEN_ADAPTORS if a[0] in ('chain-after', 'chain-before', 'repeat', 'repeat3', 'flatten', 'group-all-equal', 'windows2', 'product', 'filter-never', 'skip_until-never', 'native-filter-never', 'native-skip_until-never', 'skip-huge')]
     ad2 = [[a, b] for a in hot for b in GEN_ADAPTORS] if tier == 'quick' else [[a, b] for a in GEN_ADAPTORS for b in GEN_ADAPTORS]
     pipes = [[]] + ad1 + ad2
     if tier != 'quick':
